@@ -195,21 +195,14 @@ theorem lastAddr_chain {h : Heap} {a : Nat} {as : List Nat} {x : Int} {xs : List
         have := ih (a := b) (x := y) (xs := ys) (by simp only [Chain]; exact hc.2) f (by simp at hf; omega)
         simpa using this
 
-/-- `Each`'s loop: the head cell successively holds copies of the cells of the chain. -/
-theorem eachLoop_chain {h : Heap} {x : Int} {as xs} (h0 : h[0]? = some ⟨x, as.head?⟩)
-    (hnot : 0 ∉ as) (hc : Chain h as xs) (fuel : Nat) (hf : as.length < fuel) :
-    ∃ n, eachLoop fuel h = .ok (h.set 0 n, x :: xs) := by
-  induction as generalizing h x xs fuel with
+/-- `Each`'s loop walks the chain and reports its values. -/
+theorem eachLoop_chain {h : Heap} {as xs} (hc : Chain h as xs) (fuel : Nat)
+    (hf : as.length < fuel) : eachLoop fuel h as.head? = .ok xs := by
+  induction as generalizing xs fuel with
   | nil =>
     cases fuel with
     | zero => simp at hf
-    | succ f =>
-      cases xs with
-      | cons _ _ => simp [Chain] at hc
-      | nil =>
-        refine ⟨⟨x, none⟩, ?_⟩
-        simp at h0
-        simp [eachLoop, h0, set_self h0]
+    | succ f => cases xs <;> simp_all [eachLoop, Chain]
   | cons a as ih =>
     cases fuel with
     | zero => simp at hf
@@ -218,24 +211,15 @@ theorem eachLoop_chain {h : Heap} {x : Int} {as xs} (h0 : h[0]? = some ⟨x, as.
       | nil => simp [Chain] at hc
       | cons y ys =>
         simp only [Chain] at hc
-        have ha : a ≠ 0 := fun e => hnot (by simp [e])
-        have hnot' : 0 ∉ as := fun e => hnot (by simp [e])
-        have h0' : (h.set 0 ⟨y, as.head?⟩)[0]? = some ⟨y, as.head?⟩ :=
-          List.getElem?_set_self (lt_of_get h0)
-        have hc' : Chain (h.set 0 ⟨y, as.head?⟩) as ys :=
-          hc.2.frame (fun b hb => List.getElem?_set_ne (by intro e; subst e; exact hnot' hb))
-        obtain ⟨n, hn⟩ := ih h0' hnot' hc' f (by simp at hf; omega)
-        refine ⟨n, ?_⟩
-        simp only [List.head?_cons] at h0
-        simp only [eachLoop, h0, hc.1, hn, List.set_set]
+        simp only [List.head?_cons, eachLoop, hc.1, ih hc.2 f (by simp at hf; omega)]
 
 theorem each_repr {h : Heap} {as xs} (r : Repr h as xs) : each h = .ok (h, xs) := by
-  obtain ⟨as', x, xs', rfl, rfl, h0, hc, hnot, hnd⟩ := r.cons
-  have hlen : as'.length < h.length + 1 := by
+  have hlen : as.length < h.length + 1 := by
     have := r.chain.length_le r.nodup
-    simp at this; omega
-  obtain ⟨n, hn⟩ := eachLoop_chain h0 hnot hc (h.length + 1) hlen
-  simp [each, load, h0, hn, List.set_set, set_self h0]
+    omega
+  have hf := eachLoop_chain r.chain (h.length + 1) hlen
+  rw [r.head] at hf
+  simp [each, hf]
 
 theorem find_repr {h : Heap} {as xs} (r : Repr h as xs) (x : Int) :
     find h x = .ok (h, addrOf x as xs) := by
